@@ -45,6 +45,12 @@ type caseRec struct {
 	SameCoq   string `json:"same_coq"`
 	SameNull  bool   `json:"same_null"`
 	Err       string `json:"err,omitempty"`
+	// the same case in the universe of coq/model/CqlGoVal.v (empty when the representation is outside it)
+	SrcGty  string `json:"src_gty,omitempty"`
+	SrcG    string `json:"src_g,omitempty"`
+	DestGty string `json:"dest_gty,omitempty"`
+	SameG   string `json:"same_g,omitempty"`
+	DecG    string `json:"dec_g,omitempty"`
 }
 
 func safely(f func()) (panicked bool, msg string) {
@@ -136,6 +142,9 @@ func runCase(id string, t *ctype, r *rep, a *aval, ver primitive.ProtocolVersion
 		return rec
 	}
 	src := r.mk(a)
+	if gty, ok := gtyOf(t, r.gt); ok && len(a.coq()) < 3000 {
+		rec.SrcGty, rec.SrcG = gty, gvalOf(t, r.gt, src)
+	}
 	var enc []byte
 	var eerr error
 	if p, msg := safely(func() { enc, eerr = codec.Encode(src.Interface(), ver) }); p {
@@ -164,6 +173,9 @@ func runCase(id string, t *ctype, r *rep, a *aval, ver primitive.ProtocolVersion
 		rec.DecClass = "ok"
 		rec.DecNull = wasNull
 		d := abs(t, reflect.ValueOf(&dest).Elem())
+		if rec.SrcGty != "" {
+			rec.DecG = gvalOf(t, tIface, reflect.ValueOf(&dest).Elem())
+		}
 		rec.DecCoq = d.canon().coq()
 		rec.RtEqual = aEqual(d, a) && (wasNull == (a.kind == "null" || enc == nil))
 	}
@@ -186,6 +198,9 @@ func runCase(id string, t *ctype, r *rep, a *aval, ver primitive.ProtocolVersion
 		rec.SameClass = "ok"
 		rec.SameNull = wasNull
 		d := abs(t, dptr.Elem())
+		if gty, ok := gtyOf(t, dptr.Elem().Type()); ok && rec.SrcGty != "" {
+			rec.DestGty, rec.SameG = gty, gvalOf(t, dptr.Elem().Type(), dptr.Elem())
+		}
 		if wasNull {
 			// the destination holds the zero value; what the caller learns is wasNull
 			d = aNull
@@ -283,9 +298,11 @@ func main() {
 	case "gen":
 		cmdGen(argN(300))
 	case "directed":
-		cmdDirected()
+		cmdDirected(len(os.Args) > 2 && os.Args[2] == "quick")
 	case "null":
 		cmdNull()
+	case "reuse":
+		cmdReuse(argN(200))
 	case "malformed":
 		cmdMalformed(argN(400))
 	default:
